@@ -156,6 +156,12 @@ var c06Families = []c06Family{
 		{query: `query A{f(n:1)}`, op: "A"}, {query: `query A{f(n:2)} query B{f(n:"x")}`, op: "A"}}},
 	{"fragment", []c06Q{{query: `{...F} fragment F on Q {a}`}, {query: `{...F} fragment F on Q {b}`}, {query: `{...F} fragment F on Q {f(n:1)}`},
 		{query: `{...F} fragment F on Q {f(n:2)}`}, {query: `{...F f(n:3)} fragment F on Q {f(n:3)}`}, {query: `{... on Q{f(n:1)}}`}, {query: `{... on Q{f(n:2)}}`}}},
+	// a named fragment spread only from inside inline fragments (typed, untyped, nested, below a field, through another
+	// fragment), with the same response key and literal in the operation and in the fragment
+	{"fragment-nested", []c06Q{{query: `{... on Q{...F} f(n:3)} fragment F on Q {f(n:3)}`}, {query: `{... on Q{...F f(n:4)}} fragment F on Q {f(n:4)}`},
+		{query: `{... {...F} f(n:5)} fragment F on Q {f(n:5)}`}, {query: `{sub{... on O{...G} x(n:1)}} fragment G on O {x(n:1)}`},
+		{query: `{... on Q{... on Q{...F}} f(n:6)} fragment F on Q {f(n:6)}`}, {query: `{...A f(n:7)} fragment A on Q {... on Q {...B}} fragment B on Q {f(n:7)}`},
+		{query: `{... on Q{...F} f(n:8)} fragment F on Q {f(n:9)}`}}},
 	{"invalid", []c06Q{{query: `{a`}, {query: `{zzz}`}, {query: `{a}}`}, {query: `query A{a}`, op: "B"}, {query: `{f(n:"x")}`}, {query: `{f(n:3000000000)}`},
 		{query: `subscription{a}`}, {query: `{sub}`}}},
 	{"inputdefault", []c06Q{{query: `{o(i:{b:"z"})}`}, {query: `{o(i:{a:7,b:"z"})}`}, {query: `{o(i:{a:8,b:"z"})}`}, {query: `{o(i:{})}`}, {query: `{o(i:null)}`}, {query: `{o}`}}},
